@@ -13,6 +13,7 @@ import BufrModel.Gen.Layouts
 import BufrModel.Spec.Frame
 import BufrModel.Lemmas.Sections
 import BufrModel.Lemmas.SectionsDec
+import BufrModel.Lemmas.SectionsRT
 namespace Bufr
 
 /-- The section layouts shipped in /repo/pybufrkit/definitions (regenerated on every run) form a
@@ -286,23 +287,122 @@ theorem C04_overrun_is_error {α : Type} (dc : DataCoder α) (s : SectionLayout)
   have h1 : ¬ (st.used < d * 8) := by omega
   simp only [decSection, R.bind, hps, finishSection, hh, if_true, hd, R.lift, R.pure, h1, hlt, if_false, R.fail]
 
-/- FULL STATEMENT (not proved in this round):
+/-! ## decode after encode
 
-   C04_decode_encode (L hL cfg vals payload r) (dc : DataCoder α)
-       (hdec : ∀ reg x, ∃ a, dc.dec reg (payload ++ x) = .ok (a, x))          -- the reader accepts the payload
-       (hvalid : supplied signatures are the expected ones, `bin` values have their declared width)
-       (h : encode L cfg vals payload = .ok r) :
-       ∀ t, ∃ m, decode L dc {} (r.bytes ++ t) = .ok m ∧ m.serialized = r.bytes
+  `Layouts.WF` alone is NOT enough for the decoder to accept what the encoder wrote (counterexamples
+  `C04_decode_encode_needs_aligned_descriptors`, `C04_decode_encode_needs_unpadded_nolen` below, both with
+  well-formed three-section families).  The extra family conditions `RT.LayoutsOK` (decidable, met by the
+  bundled family: `C04_bundled_layouts_rt`) are:
+  * a `descriptors` parameter starts on an octet boundary of its section (otherwise the decoder's count
+    `(section_length - nbytes_read) // 2` can exceed what was written, edition <= 3 padding);
+  * a section without a section length has a width that is a multiple of 16 bits, i.e. the encoder never pads
+    it (the decoder does not skip padding it cannot measure);
+  * the properties the section loop itself consults (`edition`, `is_section<k>_presents`) are integers or
+    flags (their round trip is exact);
+  * a zero-width parameter has no expected value.
 
-   What is proved: the encoder side (every section's declared length is its extent, C04_encoded_frame), the decoder
-   side (every section consumes its declared extent, independent of what follows, C04_decode_consumes_declared) and
-   the theorem below, which needs the decoder to have succeeded on the produced bytes and to have consumed all of
-   them.  Missing: the simulation lemma that the decoder's parameter reads succeed on what the encoder's parameter
-   writes produced (value round trip of the control parameters edition / is_section2_presents / section_length and
-   width agreement of the others).  It is carried by the correspondence check: every generated message is decoded
-   with trailing bytes on both sides and `serialized_bytes` compared with the encoder's output. -/
+  Vocabulary (in `Lemmas/SectionsRT.lean`): `RT.encodeVisits L cfg vals payload` = the sections the encoder
+  writes, each with its layout `s`, the values `vs` consumed, the encoder's registry `reg` and the writer
+  position `start` when the section was opened; `RT.valsOK ps vs` = every `bin` value has the declared width
+  of its parameter (the writer takes the width from the value) and every value with an expectation meets
+  it (the encoder does not check); `RT.RegRel rE rD` = the decoder's registry `rD` is, entry by entry, the
+  encoder's registry `rE` (same names, widths, bit positions) with values related by `RT.PRel`;
+  `RT.SecsRel visits secs` = the decoded sections are the written ones: same index, parameter names in
+  layout order, values related by `RT.PRel`:
+    integers and flags as supplied (the back-patched `section_length` / `length` excepted: their decoded
+    values are the real extents, `C04_decode_consumes_declared`, `C04_encoded_frame`), bytes blank-padded or
+    cut to the width, a zero-width `bin` extended by the section's zero padding, a descriptor list possibly
+    extended by null descriptors when an over-declared section length is honoured, the template data
+    parameter `PVal.data`. -/
 
-/-- decode after encode, partial: see the comment block above for what is missing. -/
+/-- the bundled family meets the extra conditions -/
+theorem C04_bundled_layouts_rt : RT.LayoutsOK Gen.layouts = true := by decide
+
+/-- **decode after encode (full).**  For every well-formed layout family with the conditions above, every
+    mode, values accepted by the encoder (`encode … = .ok r`) that start with the start signature and are
+    valid for the layouts they were written with, and every data coder that accepts the payload — precisely:
+    `dc.dec rD (payload ++ x) = .ok (a, x)` for every registry `rD` that is `RegRel`-related to the
+    encoder's registry at the template-data parameter (the decoder's registry at that point is such a one:
+    same entries, canonicalised values) — decoding `r.bytes ++ t` SUCCEEDS for every `t`, consumes exactly
+    `r.bytes`, reports `serialized = r.bytes`, returns the data `a` and, section by section, the supplied
+    parameter values up to the canonicalisation of the bit I/O (`RT.SecsRel`). -/
+theorem C04_decode_encode {α : Type} (L : Layouts) (hL : L.WF = true) (hok : RT.LayoutsOK L = true) (cfg : EncCfg)
+    (vals : List (List PVal)) (payload : Bits) (r : Encoded) (dc : DataCoder α) (a : α)
+    (hsig : (vals.head?.bind List.head?) = some (PVal.bytes startSig))
+    (h : encode L cfg vals payload = .ok r)
+    (hvals : ∀ v ∈ RT.encodeVisits L cfg vals payload, RT.valsOK v.s.params v.vs = true)
+    (hdec : ∀ v ∈ RT.encodeVisits L cfg vals payload, RT.hasData v.s.params = true →
+      ∀ rD, RT.RegRel (register v.reg v.start 0 (RT.beforeData v.s.params) v.vs) rD →
+        ∀ x, dc.dec rD (payload ++ x) = .ok (a, x))
+    (t : List UInt8) :
+    ∃ m, decode L dc {} (r.bytes ++ t) = .ok m ∧ m.serialized = r.bytes ∧ m.nbits = 8 * r.bytes.length ∧
+      RT.SecsRel (RT.encodeVisits L cfg vals payload) m.sections ∧
+      m.data = (if RT.visitsHaveData (RT.encodeVisits L cfg vals payload) = true then some a else none) := by
+  -- the start signature
+  obtain ⟨_, _, b0, _, mid, _, _, hb0, _, hbytes, _⟩ := C04_encoded_frame L hL cfg vals payload r h
+  rw [hsig] at hb0
+  injection hb0 with hb0
+  injection hb0 with hb0
+  subst hb0
+  have hpre : startSig.isPrefixOf r.bytes = true := by
+    have hps : padBytes startSig 4 = startSig := by decide
+    rw [hbytes, hps, List.isPrefixOf_iff_prefix, List.append_assoc]
+    exact List.prefix_append _ _
+  have hfind : findFrom startSig (r.bytes ++ t) = some (r.bytes ++ t) := by
+    cases hb : r.bytes with
+    | nil => rw [hb] at hpre; simp [startSig] at hpre
+    | cons c cs =>
+      rw [hb] at hpre
+      have : startSig.isPrefixOf (c :: cs ++ t) = true := by
+        rw [List.isPrefixOf_iff_prefix] at hpre ⊢
+        exact List.IsPrefix.trans hpre (List.prefix_append _ _)
+      simp only [List.cons_append] at this ⊢
+      simp only [findFrom, this, if_true]
+  have hbb : bytesToBits (r.bytes ++ t) = bytesToBits r.bytes ++ bytesToBits t := by
+    simp [bytesToBits, List.flatMap_append]
+  -- the bits
+  unfold encode at h
+  split at h
+  · cases h
+  rename_i w tr hbits
+  cases h
+  have hw8 : w.length % 8 = 0 := by
+    unfold encodeBits at hbits
+    split at hbits
+    · cases hbits
+    split at hbits
+    · cases hbits
+    split at hbits
+    · cases hbits
+    · rename_i hne; cases hbits; simpa using hne
+  have hwb : bytesToBits (bitsToBytes w) = w := bytesToBits_bitsToBytes (w.length / 8) w (by omega)
+  have hwlen : w.length = 8 * (bitsToBytes w).length := by
+    have := bytesToBits_length (bitsToBytes w); rw [hwb] at this; exact this
+  obtain ⟨secs, hsecs, hrun⟩ := RT.encodeBits_rt dc a hL hok hbits hvals hdec
+  simp only at hfind hbb ⊢
+  refine ⟨{ sections := secs,
+             data := if RT.visitsHaveData (RT.encodeVisits L cfg vals payload) = true then some a else none,
+             nbits := w.length, serialized := (bitsToBytes w ++ t).take (w.length / 8) }, ?_, ?_, ?_, hsecs, rfl⟩
+  · simp only [decode, hfind, hbb, hwb, hrun (bytesToBits t)]
+  · show (bitsToBytes w ++ t).take (w.length / 8) = bitsToBytes w
+    rw [hwlen, Nat.mul_div_cancel_left _ (by omega : 0 < 8), List.take_left]
+  · exact hwlen
+
+/-- the same for a data coder that accepts the payload whatever the registry (e.g. `rawCoder`) -/
+theorem C04_decode_encode_anyreg {α : Type} (L : Layouts) (hL : L.WF = true) (hok : RT.LayoutsOK L = true) (cfg : EncCfg)
+    (vals : List (List PVal)) (payload : Bits) (r : Encoded) (dc : DataCoder α) (a : α)
+    (hsig : (vals.head?.bind List.head?) = some (PVal.bytes startSig))
+    (h : encode L cfg vals payload = .ok r)
+    (hvals : ∀ v ∈ RT.encodeVisits L cfg vals payload, RT.valsOK v.s.params v.vs = true)
+    (hdec : ∀ reg x, dc.dec reg (payload ++ x) = .ok (a, x)) (t : List UInt8) :
+    ∃ m, decode L dc {} (r.bytes ++ t) = .ok m ∧ m.serialized = r.bytes ∧ m.nbits = 8 * r.bytes.length ∧
+      RT.SecsRel (RT.encodeVisits L cfg vals payload) m.sections :=
+  let ⟨m, h1, h2, h3, h4, _⟩ := C04_decode_encode L hL hok cfg vals payload r dc a hsig h hvals
+    (fun _ _ _ rD _ x => hdec rD x) t
+  ⟨m, h1, h2, h3, h4⟩
+
+/-- decode after encode under the hypothesis that the decoder succeeded (any family, any options); kept
+    for the files that use it — `C04_decode_encode` above discharges the hypothesis. -/
 theorem C04_decode_encode_partial {α : Type} (L : Layouts) (hL : L.WF = true) (cfg : EncCfg)
     (vals : List (List PVal)) (payload : Bits) (r : Encoded) (dc : DataCoder α) (hdc : ∀ reg, Local (dc.dec reg))
     (o : DecOpts) (hsig : (vals.head?.bind List.head?) = some (PVal.bytes startSig))
